@@ -189,6 +189,10 @@ class HTTPChannel(wasyncore.dispatcher):
         outbuf_payload = b"HTTP/1.1 100 Continue\r\n\r\n"
         num_bytes = len(outbuf_payload)
         with self.outbuf_lock:
+            if not self.connected:
+                # the main thread tore the channel down (and closed its
+                # buffers) after the caller, a worker, looked at it
+                return
             self.outbufs[-1].append(outbuf_payload)
             self.current_outbuf_count += num_bytes
             self.total_outbufs_len += num_bytes
